@@ -108,5 +108,51 @@ def r4(ctx):
     ctx.check('is_kiss|stratum==0', ok, 'is_kiss no longer tests stratum == 0: %s' % vals, sample=vals)
 
 
-RULES = [r1, r2, r3, r4]
-FLOORS = {'C09-R1': 3, 'C09-R2': 12, 'C09-R3': 4, 'C09-R4': 5}
+def kiss_classes(ctx):
+    """The kiss predicates partition kiss packets: handle_incoming tests RATE before DENY/RSTR, so a packet that is both would be
+    handled as RATE and never set the DENY mark. NTPv3/4: each predicate is its own kiss code (is_rate/is_deny/is_rstr/is_ntsn of the
+    reference id). NTPv5: DENY is poll == NEVER, RATE is poll > own interval AND poll != NEVER, RSTR does not exist."""
+    P = ctx.P
+    v5 = r'\(self\.header as V5\)\.0'
+    is5 = fact_is(r'^self\.header$', ['V5'])
+    table = {}
+    for nm in ('is_kiss_deny', 'is_kiss_rate', 'is_kiss_rstr', 'is_kiss_ntsn'):
+        b = P.body(PKT + '::' + nm)
+        for s, v in ret_assigns(b):
+            if v == '0':
+                continue
+            fam = 'V5' if b.must_pass(s.bb, is5) else 'V3V4'
+            table.setdefault((nm, fam), []).append((s, v))
+    code = {'is_kiss_deny': 'is_deny', 'is_kiss_rate': 'is_rate', 'is_kiss_rstr': 'is_rstr', 'is_kiss_ntsn': 'is_ntsn'}
+    for nm, c in code.items():
+        got = [v for _, v in table.get((nm, 'V3V4'), [])]
+        ctx.check('%s|V3V4|own-code' % nm, got == ['ReferenceId::%s(NtpPacket::kiss_code(self))' % c], '%s for NTPv3/4 is %s' % (nm, got), sample=got)
+    deny5 = [v for _, v in table.get(('is_kiss_deny', 'V5'), [])]
+    ctx.check('is_kiss_deny|V5|poll-never', len(deny5) == 1 and re.match(r'^\(%s\.poll == NEVER=' % v5, deny5[0]) is not None, 'NTPv5 DENY is %s' % deny5, sample=deny5)
+    rate5 = table.get(('is_kiss_rate', 'V5'), [])
+    b = P.body(PKT + '::is_kiss_rate')
+    ok = len(rate5) >= 1
+    for s, v in rate5:
+        # every way of answering `true` excludes poll == NEVER (as the returned conjunct or as a dominating fact) and requires poll > own_interval
+        not_never = re.match(r'^\(%s\.poll != NEVER=' % v5, v) is not None or b.must_pass(s.bb, fact_cmp('Ne', '^%s\\.poll$' % v5, r'^NEVER='))
+        above = re.match(r'^\(%s\.poll > own_interval\)$' % v5, v) is not None or b.must_pass(s.bb, fact_cmp('Gt', '^%s\\.poll$' % v5, r'^own_interval$'))
+        ok = ok and not_never and above
+    ctx.check('is_kiss_rate|V5|excludes-deny', ok, 'an NTPv5 kiss with poll == NEVER (DENY) also satisfies is_kiss_rate (%s): handle_incoming tests RATE first, so the DENY is never registered'
+              % [v for _, v in rate5], (rate5[0][0].where() if rate5 else None), sample=[v for _, v in rate5])
+    ctx.check('is_kiss_rstr|V5|none', not table.get(('is_kiss_rstr', 'V5')), 'NTPv5 RSTR is %s' % [v for _, v in table.get(('is_kiss_rstr', 'V5'), [])], sample=len(table.get(('is_kiss_rstr', 'V5'), [])))
+    hi = P.body(SRC + '::handle_incoming')
+    order = []
+    for nm in ('is_kiss_ntsn', 'is_kiss_rate', 'is_kiss_rstr', 'is_kiss_deny'):
+        cs = hi.calls(r'NtpPacket::%s$' % nm)
+        order.append((nm, len(cs)))
+    ctx.check('handle_incoming|kiss-tests-present', all(n >= 1 for _, n in order), 'kiss tests in handle_incoming: %s' % order, sample=order)
+
+
+def r5(ctx):
+    ctx.rule('C09-R5', 'kiss classes are disjoint where the dispatch order matters: NTPv3/4 predicates each test their own kiss code; NTPv5 DENY is poll == NEVER and NTPv5 RATE '
+             'requires poll > own interval and poll != NEVER; there is no NTPv5 RSTR')
+    kiss_classes(ctx)
+
+
+RULES = [r1, r2, r3, r4, r5]
+FLOORS = {'C09-R1': 3, 'C09-R2': 12, 'C09-R3': 4, 'C09-R4': 5, 'C09-R5': 8}
